@@ -321,6 +321,7 @@ func runC15(c *eng.Ctx) {
 	// ---- R15.9 a reload reaches the decision; R15.10 the authorisation settings are written only by the configuration loader
 	c.Rule("R15.9", "K5")
 	ruleReloadReachesDecision(c)
+	ruleReloadIsUnconditional(c)
 	c.Floor(2)
 	c.Rule("R15.10", "K3")
 	ruleAuthzSwitchWriters(c)
